@@ -208,13 +208,24 @@ class Patch:
 
 def lowprec_patch(rule, p, g=None, omega=None):
     """
-    Reduced-precision variant of meek-prf / qpq: the count() body that runs is the
-    repository's; only the statutory constants are replaced, so the procedure can be
-    validated by TLC with native 32-bit integers.  Returns a context manager.
+    Reduced-precision variant of a statutory rule: the count() body that runs is the repository's;
+    only the statutory constants are replaced, so that the procedure meets its boundary cases
+    (tallies landing exactly on a fractional quota) on small electorates and so that TLC can
+    validate it with native 32-bit integers.  Returns a context manager.
     """
-    from droop.rules import meek_prf, qpq
+    from droop.rules import meek_prf, qpq, cfer, wigm_prf, scotland, mpls
     if rule == 'meek-prf':
         return Patch([(meek_prf.Rule, 'precision', p), (meek_prf.Rule, 'omega10', omega if omega is not None else max(1, p * 2 // 3))])
+    if rule in ('cfer', 'cfer-batch'):
+        return Patch([(cfer.Rule, 'precision', p)])
+    if rule in ('wigm-prf', 'wigm-prf-batch'):
+        return Patch([(wigm_prf.Rule, 'precision', p)])
+    if rule in ('scotland', 'mpls'):
+        def options_f(self):
+            self.E.options.setopt('arithmetic', default='fixed', force=True)
+            self.E.options.setopt('precision', default=p, force=True)
+            self.E.options.setopt('display', default=p, force=True)
+        return Patch([((scotland if rule == 'scotland' else mpls).Rule, 'options', options_f)])
     if rule == 'qpq':
         gg = p if g is None else g
 
